@@ -361,4 +361,3 @@ func firstOr(lines [][]byte) []byte {
 	}
 	return lines[0]
 }
-
